@@ -204,3 +204,507 @@ Proof.
       unfold finish_rec. destruct (r_phase (run_ s (p_owner (pay s p)))) eqn:Eph; try discriminate Hl;
         destruct o; try destruct (p_flav (pay s p)); simp_state; rewrite ?Eph; reflexivity.
 Qed.
+
+(* ====================================================================================== *)
+(* 3. bookkeeping: every non-default record is listed                                     *)
+(* ====================================================================================== *)
+Definition ids_ok (s : rt) : Prop :=
+  (forall r, ~ In r (rids s) -> run_ s r = r0) /\ (forall p, ~ In p (pids s) -> pay s p = p0).
+
+Lemma add_id_in x y l : In x (add_id y l) <-> x = y \/ In x l.
+Proof.
+  unfold add_id. destruct (existsb (Nat.eqb y) l) eqn:E.
+  - split; [auto|]. intros [->|H]; [|exact H].
+    apply existsb_exists in E. destruct E as [z [Hz Ez]]. apply Nat.eqb_eq in Ez. subst. exact Hz.
+  - cbn. split; intros [H|H]; auto.
+Qed.
+
+Lemma ids_ok_init : ids_ok init.
+Proof. split; reflexivity. Qed.
+
+Lemma ids_ok_step s e s' : ids_ok s -> step s e = Some s' -> ids_ok s'.
+Proof.
+  intros [I1 I2] H. split.
+  - intros r Hn. step_inv H; simp_state; auto;
+    try (rewrite ?add_id_in in Hn; upd_cases r; [exfalso; apply Hn; auto|]; auto 6; fail).
+    all: try (destruct f; simp_state).
+    all: rewrite ?add_id_in in Hn; unfold upd; repeat (match goal with |- context[?a =? ?b] => destruct (a =? b) eqn:?E end);
+      try (apply Nat.eqb_eq in E; subst); try (apply Nat.eqb_eq in E0; subst); try (exfalso; apply Hn; auto; fail); auto 6.
+  - intros p Hn. step_inv H; simp_state; auto;
+    try (rewrite ?add_id_in in Hn; upd_cases p; [exfalso; apply Hn; auto|]; auto 6; fail).
+    destruct (flush_st s r p) as [[Hq [_ Hf]]|Hf]; rewrite Hf; simp_state; [|auto].
+    rewrite (I2 _ Hn) in Hq. discriminate.
+Qed.
+
+(* ====================================================================================== *)
+(* 4. payload-level invariants and permanence                                             *)
+(* ====================================================================================== *)
+Definition starts_ok (s : rt) : Prop :=
+  forall p, p_starts (pay s p) = if started (p_st (pay s p)) then 1 else 0.
+
+Lemma starts_ok_init : starts_ok init.
+Proof. intros p. reflexivity. Qed.
+
+Lemma starts_ok_step s e s' : starts_ok s -> step s e = Some s' -> starts_ok s'.
+Proof.
+  intros I H p. pose proof (I p) as Ip. clear I. step_inv H; simp_state;
+  try (upd_cases p); simp_state; try exact Ip; try reflexivity;
+  try (rw_all; cbn [started] in *; (lia || congruence || reflexivity)).
+  - destruct (flush_st s r p) as [[Hq [_ Hf]]|Hf]; rewrite Hf; simp_state; [rewrite Hq in Ip|]; exact Ip.
+  - rewrite E in Ip. destruct (r_phase (run_ s r)); exact Ip.
+Qed.
+
+(* the ghost counter really counts Start events *)
+Definition is_start (p : nat) (e : event) : nat :=
+  match e with Start q _ _ _ _ _ => if q =? p then 1 else 0 | _ => 0 end.
+Fixpoint nstarts (p : nat) (tr : list event) : nat :=
+  match tr with [] => 0 | e :: r => is_start p e + nstarts p r end.
+
+Lemma starts_count_step s e s' p :
+  step s e = Some s' -> p_starts (pay s' p) = p_starts (pay s p) + is_start p e.
+Proof.
+  intros H. step_inv H; simp_state; cbn [is_start]; try (rewrite Nat.add_0_r; reflexivity);
+  try (upd_cases p; simp_state; rewrite ?Nat.eqb_refl; try lia;
+       try (match goal with [H : ?a <> ?b |- context[?b =? ?a]] => rewrite (proj2 (Nat.eqb_neq b a)) by congruence end; lia);
+       try (rw_all; simp_state; lia); fail).
+  - destruct (flush_st s r p) as [[_ [_ Hf]]|Hf]; rewrite Hf; simp_state; lia.
+Qed.
+
+Lemma starts_count tr : forall s s' p,
+  run s tr = Some s' -> p_starts (pay s' p) = p_starts (pay s p) + nstarts p tr.
+Proof.
+  induction tr as [|e tr IH]; intros s s' p H; cbn [run nstarts] in *.
+  - injection H as <-. lia.
+  - destruct (step s e) eqn:E; [|discriminate]. rewrite (IH _ _ _ H), (starts_count_step _ _ _ p E). lia.
+Qed.
+
+(* an ended run never changes phase again *)
+Lemma ended_perm s e s' r :
+  step s e = Some s' -> phase_ended (r_phase (run_ s r)) = true ->
+  r_phase (run_ s' r) = r_phase (run_ s r).
+Proof.
+  intros H He. destruct (pay_only e) eqn:Ep.
+  { destruct (frame_runners _ _ _ Ep H) as [Hr _]. rewrite Hr. reflexivity. }
+  destruct e; cbn in Ep; try discriminate Ep.
+  - destruct (inv_AcceptCall _ _ _ H) as [Hi [[[_ [_ [Hr _]]]|[g [_ [_ [Hr _]]]]] _]]; rewrite Hr;
+      upd_cases r; auto; rewrite Hi in He; discriminate He.
+  - destruct (inv_AcceptEnd _ _ _ _ H) as [Ha [_ [_ Hr]]]. rewrite Hr. upd_cases r; auto.
+    unfold accept_end_ok in Ha. destruct (r_phase (run_ s _)); cbn in He; try discriminate.
+  - destruct (inv_RunningSet _ _ _ H) as [_ [Hr _]]. rewrite Hr. upd_cases r; reflexivity.
+  - destruct (inv_ShutdownCall _ _ _ _ H) as [_ [_ Hr]]. rewrite Hr. upd_cases r; auto. simp_state.
+    destruct (r_phase (run_ s _)); cbn in He; try discriminate; reflexivity.
+  - destruct (inv_ShutdownEnd _ _ _ _ H) as [_ [_ [_ Hr]]]. rewrite Hr. upd_cases r; reflexivity.
+  - destruct (inv_Sigint _ _ H) as [_ Hr]. destruct (guard s); rewrite Hr; auto. upd_cases r; auto. simp_state.
+    destruct (r_phase (run_ s _)); cbn in He; try discriminate; reflexivity.
+  - destruct (inv_Start_run _ _ _ _ _ _ _ _ H) as [_ [_ Hs]]. apply Hs.
+  - destruct (inv_Finish _ _ _ _ H) as [_ [_ [_ [_ [_ [_ [_ [[Hr _]|[_ [Hl Hr]]]]]]]]]]; rewrite Hr; auto.
+    upd_cases r; auto. destruct (r_phase (run_ s (p_owner (pay s p)))); cbn in *; discriminate.
+Qed.
+
+Lemma ended_perm_run tr : forall s s' r o,
+  run s tr = Some s' -> r_phase (run_ s r) = Ended o -> r_phase (run_ s' r) = Ended o.
+Proof.
+  induction tr as [|e tr IH]; intros s s' r o H He; cbn [run] in H.
+  - injection H as <-. exact He.
+  - destruct (step s e) eqn:E; [|discriminate]. eapply IH; [exact H|].
+    rewrite (ended_perm _ _ _ r E); [exact He|rewrite He; reflexivity].
+Qed.
+
+(* once started, a payload keeps its identity data and stays started *)
+Lemma started_perm s e s' p :
+  step s e = Some s' -> started (p_st (pay s p)) = true ->
+  started (p_st (pay s' p)) = true /\ p_owner (pay s' p) = p_owner (pay s p)
+  /\ p_flav (pay s' p) = p_flav (pay s p) /\ p_origin (pay s' p) = p_origin (pay s p)
+  /\ p_tid (pay s' p) = p_tid (pay s p) /\ p_loop (pay s' p) = p_loop (pay s p).
+Proof.
+  intros H Hs. step_inv H; simp_state; auto 10;
+  try (upd_cases p; simp_state; auto 10);
+  try (rw_all; cbn [started] in *; try discriminate; auto 10; fail).
+  - destruct (flush_st s r p) as [[Hq [_ Hf]]|Hf]; rewrite Hf; simp_state; auto 10.
+    rewrite Hq in Hs. discriminate.
+Qed.
+
+(* a finished payload stays finished with the same outcome *)
+Lemma done_perm s e s' p o :
+  step s e = Some s' -> p_st (pay s p) = PDone o ->
+  p_st (pay s' p) = PDone o /\ p_owner (pay s' p) = p_owner (pay s p) /\ p_origin (pay s' p) = p_origin (pay s p).
+Proof.
+  intros H Hs. assert (St : started (p_st (pay s p)) = true) by (rewrite Hs; reflexivity).
+  destruct (started_perm _ _ _ _ H St) as [_ [Ho [_ [Hor _]]]]. split; [|auto].
+  step_inv H; simp_state; auto;
+  try (upd_cases p; simp_state; auto);
+  try (rw_all; try discriminate; auto; fail).
+  - destruct (flush_st s r p) as [[Hq [_ Hf]]|Hf]; rewrite Hf; simp_state; auto. congruence.
+Qed.
+
+(* ====================================================================================== *)
+(* 5. C01: recorded failures are the payloads' own failures                               *)
+(* ====================================================================================== *)
+Definition cause_ok (s : rt) (r : nat) (c : cause) : Prop :=
+  match c with
+  | CExc p => exists e, p_st (pay s p) = PDone (ORaiseExc e) /\ p_owner (pay s p) = r
+                        /\ is_exec (p_origin (pay s p)) = false
+  | COrphan p => exists v, p_st (pay s p) = PDone (ORetVal v) /\ p_owner (pay s p) = r
+                           /\ is_exec (p_origin (pay s p)) = false
+  | COther => False
+  end.
+
+Definition causes_ok (s : rt) : Prop := forall r c, In c (r_failures (run_ s r)) -> cause_ok s r c.
+
+Lemma cause_ok_step s e s' r c : step s e = Some s' -> cause_ok s r c -> cause_ok s' r c.
+Proof.
+  intros H Hc. destruct c as [p|p|]; cbn in *; [| |exact Hc].
+  - destruct Hc as [x [Hd [Ho Hx]]]. destruct (done_perm _ _ _ _ _ H Hd) as [Hd' [Ho' Hor']].
+    exists x. rewrite Hd', Ho', Hor'. auto.
+  - destruct Hc as [x [Hd [Ho Hx]]]. destruct (done_perm _ _ _ _ _ H Hd) as [Hd' [Ho' Hor']].
+    exists x. rewrite Hd', Ho', Hor'. auto.
+Qed.
+
+Lemma failures_step s e s' r :
+  step s e = Some s' ->
+  r_failures (run_ s' r) = r_failures (run_ s r) \/
+  exists p o, e = Finish p o /\ r = p_owner (pay s p) /\ is_exec (p_origin (pay s p)) = false
+    /\ p_st (pay s p) = PRun
+    /\ ((exists x, o = ORaiseExc x /\ r_failures (run_ s' r) = CExc p :: r_failures (run_ s r))
+        \/ (exists x, o = ORetVal x /\ r_failures (run_ s' r) = COrphan p :: r_failures (run_ s r))).
+Proof.
+  intros H. destruct (pay_only e) eqn:Ep.
+  { destruct (frame_runners _ _ _ Ep H) as [Hr _]. rewrite Hr. auto. }
+  destruct e; cbn in Ep; try discriminate Ep.
+  - destruct (inv_AcceptCall _ _ _ H) as [Hi [[[_ [_ [Hr _]]]|[g [_ [_ [Hr _]]]]] _]]; rewrite Hr;
+      left; upd_cases r; reflexivity.
+  - destruct (inv_AcceptEnd _ _ _ _ H) as [Ha [_ [_ Hr]]]. rewrite Hr. left. upd_cases r; reflexivity.
+  - destruct (inv_RunningSet _ _ _ H) as [_ [Hr _]]. rewrite Hr. left. upd_cases r; reflexivity.
+  - destruct (inv_ShutdownCall _ _ _ _ H) as [_ [_ Hr]]. rewrite Hr. left. upd_cases r; reflexivity.
+  - destruct (inv_ShutdownEnd _ _ _ _ H) as [_ [_ [_ Hr]]]. rewrite Hr. left. upd_cases r; reflexivity.
+  - destruct (inv_Sigint _ _ H) as [_ Hr]. left. destruct (guard s); rewrite Hr; auto. upd_cases r; reflexivity.
+  - destruct (inv_Start_run _ _ _ _ _ _ _ _ H) as [_ [_ Hs]]. left. apply Hs.
+  - destruct (inv_Finish _ _ _ _ H) as [Hst [_ [_ [_ [_ [_ [_ [[Hr _]|[Hx [Hl Hr]]]]]]]]]]; rewrite Hr; auto.
+    upd_cases r; auto. unfold finish_rec.
+    destruct o as [|v|x|x|]; simp_state; auto.
+    + right. exists p, (ORetVal v). repeat split; auto. right. eauto.
+    + right. exists p, (ORaiseExc x). repeat split; auto. left. eauto.
+    + destruct (p_flav (pay s p)); simp_state; auto.
+Qed.
+
+Lemma causes_ok_init : causes_ok init.
+Proof. intros r c H. destruct H. Qed.
+
+Lemma causes_ok_step s e s' : causes_ok s -> step s e = Some s' -> causes_ok s'.
+Proof.
+  intros C H r c Hin. destruct (failures_step _ _ _ r H) as [E|[p [o [-> [-> [Hx [Hst [[x [-> E]]|[x [-> E]]]]]]]]]].
+  - rewrite E in Hin. eapply cause_ok_step; eauto.
+  - rewrite E in Hin. destruct Hin as [<-|Hin]; [|eapply cause_ok_step; eauto].
+    destruct (inv_Finish _ _ _ _ H) as [_ [_ [Hp _]]]. cbn. exists x. rewrite Hp, upd_same. simp_state. auto.
+  - rewrite E in Hin. destruct Hin as [<-|Hin]; [|eapply cause_ok_step; eauto].
+    destruct (inv_Finish _ _ _ _ H) as [_ [_ [Hp _]]]. cbn. exists x. rewrite Hp, upd_same. simp_state. auto.
+Qed.
+
+(* ====================================================================================== *)
+(* 6. the combined invariant and its lifting to every reachable state                     *)
+(* ====================================================================================== *)
+Record Inv (s : rt) : Prop := mkInv {
+  inv_rok : all_Rok s; inv_guard : guard_ok s; inv_ids : ids_ok s; inv_starts : starts_ok s;
+  inv_causes : causes_ok s }.
+
+Lemma Inv_init : Inv init.
+Proof.
+  constructor; [apply all_Rok_init|apply guard_ok_init|apply ids_ok_init|apply starts_ok_init|apply causes_ok_init].
+Qed.
+
+Lemma Inv_step s e s' : Inv s -> step s e = Some s' -> Inv s'.
+Proof.
+  intros [A B C D E] H. constructor;
+    [eapply all_Rok_step|eapply guard_ok_step|eapply ids_ok_step|eapply starts_ok_step|eapply causes_ok_step]; eauto.
+Qed.
+
+Lemma Inv_run tr s : run init tr = Some s -> Inv s.
+Proof. intros H. eapply (run_inv Inv Inv_step); [apply Inv_init|exact H]. Qed.
+
+Lemma Inv_run_from tr s s' : Inv s -> run s tr = Some s' -> Inv s'.
+Proof. intros I H. eapply (run_inv Inv Inv_step); eauto. Qed.
+
+(* ====================================================================================== *)
+(* 7. monotone ghost flags and their provenance                                           *)
+(* ====================================================================================== *)
+Definition stop_trigger (r : nat) (e : event) : Prop :=
+  e = Sigint \/ (exists c, e = ShutdownCall c r) \/ (exists p, e = Finish p OKbd).
+
+(* one lemma describing how the flags of runner r evolve in one step *)
+Lemma flags_step s e s' r :
+  step s e = Some s' ->
+  (r_failed_up (run_ s r) = true -> r_failed_up (run_ s' r) = true) /\
+  (r_trigger (run_ s' r) = true -> r_trigger (run_ s r) = true \/ stop_trigger r e) /\
+  (r_sigint (run_ s' r) = true -> r_sigint (run_ s r) = true \/ (e = Sigint /\ guard s = Some r)).
+Proof.
+  intros H. destruct (pay_only e) eqn:Ep.
+  { destruct (frame_runners _ _ _ Ep H) as [Hr _]. rewrite Hr. auto. }
+  unfold stop_trigger.
+  destruct e; cbn in Ep; try discriminate Ep.
+  - destruct (inv_AcceptCall _ _ _ H) as [Hi [[[_ [_ [Hr _]]]|[g [_ [_ [Hr _]]]]] _]]; rewrite Hr;
+      upd_cases r; auto.
+  - destruct (inv_AcceptEnd _ _ _ _ H) as [Ha [_ [_ Hr]]]. rewrite Hr. upd_cases r; auto.
+  - destruct (inv_RunningSet _ _ _ H) as [_ [Hr _]]. rewrite Hr. upd_cases r; auto.
+  - destruct (inv_ShutdownCall _ _ _ _ H) as [_ [_ Hr]]. rewrite Hr. upd_cases r; auto. simp_state.
+    repeat split; auto. intros _. right. right. left. eauto.
+  - destruct (inv_ShutdownEnd _ _ _ _ H) as [_ [_ [_ Hr]]]. rewrite Hr. upd_cases r; auto.
+  - destruct (inv_Sigint _ _ H) as [_ Hr]. destruct (guard s) eqn:Eg; rewrite Hr; auto. upd_cases r; auto.
+    all: try (simp_state; repeat split; auto).
+  - destruct (inv_Start_run _ _ _ _ _ _ _ _ H) as [_ [_ Hs]].
+    destruct (Hs r) as [_ [_ [_ [_ [_ [_ [H7 [H8 H9]]]]]]]]. rewrite H7, H8, H9. auto.
+  - destruct (inv_Finish _ _ _ _ H) as [Hst [_ [_ [_ [_ [_ [_ [[Hr _]|[Hx [Hl Hr]]]]]]]]]]; rewrite Hr; auto.
+    upd_cases r; auto. unfold finish_rec.
+    destruct o; simp_state; auto.
+    + repeat split; auto. intros ->. apply orb_true_r.
+    + repeat split; auto. intros ->. apply orb_true_r.
+    + repeat split; auto. intros ->. apply orb_true_r.
+    + destruct (p_flav (pay s p)); simp_state; repeat split; auto; intros _; right; right; right; eauto.
+Qed.
+
+Lemma failed_up_run tr : forall s s' r,
+  run s tr = Some s' -> r_failed_up (run_ s r) = true -> r_failed_up (run_ s' r) = true.
+Proof.
+  induction tr as [|e tr IH]; intros s s' r H Hf; cbn [run] in H.
+  - injection H as <-. exact Hf.
+  - destruct (step s e) eqn:E; [|discriminate]. eapply IH; [exact H|].
+    apply (proj1 (flags_step _ _ _ r E)). exact Hf.
+Qed.
+
+Lemma trigger_run tr : forall s s' r,
+  run s tr = Some s' -> r_trigger (run_ s' r) = true ->
+  r_trigger (run_ s r) = true \/ exists e, In e tr /\ stop_trigger r e.
+Proof.
+  induction tr as [|e tr IH]; intros s s' r H Hf; cbn [run] in H.
+  - injection H as <-. auto.
+  - destruct (step s e) eqn:E; [|discriminate].
+    destruct (IH _ _ _ H Hf) as [Ht|[e' [Hin He']]].
+    + destruct (proj1 (proj2 (flags_step _ _ _ r E)) Ht) as [X|X]; auto.
+      right. exists e. split; [left; reflexivity|exact X].
+    + right. exists e'. split; [right; exact Hin|exact He'].
+Qed.
+
+Lemma sigint_run tr : forall s s' r,
+  run s tr = Some s' -> r_sigint (run_ s' r) = true ->
+  r_sigint (run_ s r) = true \/ In Sigint tr.
+Proof.
+  induction tr as [|e tr IH]; intros s s' r H Hf; cbn [run] in H.
+  - injection H as <-. auto.
+  - destruct (step s e) eqn:E; [|discriminate].
+    destruct (IH _ _ _ H Hf) as [Ht|Hin].
+    + destruct (proj2 (proj2 (flags_step _ _ _ r E)) Ht) as [X|[X _]]; auto.
+      right. left. auto.
+    + right. right. exact Hin.
+Qed.
+
+(* ====================================================================================== *)
+(* 8. C01                                                                                 *)
+(* ====================================================================================== *)
+Definition background (s : rt) (p : nat) : Prop := is_exec (p_origin (pay s p)) = false.
+
+(* a failing background payload of a runner that is Up closes the runner with cause CFail *)
+Lemma C01_failure_closes s p o s' :
+  step s (Finish p o) = Some s' -> failing o = true -> background s p ->
+  r_phase (run_ s (p_owner (pay s p))) = Up ->
+  r_phase (run_ s' (p_owner (pay s p))) = Closing CFail /\ r_failed_up (run_ s' (p_owner (pay s p))) = true.
+Proof.
+  intros H Hf Hb Hu. unfold background in Hb.
+  destruct (inv_Finish _ _ _ _ H) as [_ [_ [_ [_ [_ [_ [_ [[_ [X|X]]|[_ [_ Hr]]]]]]]]]].
+  - congruence.
+  - rewrite Hu in X. discriminate.
+  - rewrite Hr, upd_same. unfold finish_rec. rewrite Hu. destruct o; try discriminate Hf; cbn; auto.
+Qed.
+
+(* ... and from then on the run cannot end silently: it ends by raising, unless a SIGINT arrives *)
+Lemma C01_no_silent_return tr1 tr2 s1 p o s r a :
+  run init tr1 = Some s1 ->
+  failing o = true -> background s1 p -> r = p_owner (pay s1 p) -> r_phase (run_ s1 r) = Up ->
+  run s1 (Finish p o :: tr2) = Some s ->
+  r_phase (run_ s r) = Ended a ->
+  a <> AExclusive /\ (a = AReturned -> In Sigint (tr1 ++ Finish p o :: tr2)).
+Proof.
+  intros H1 Hf Hb -> Hu H2 He. cbn [run] in H2.
+  destruct (step s1 (Finish p o)) as [s2|] eqn:E; [|discriminate].
+  destruct (C01_failure_closes _ _ _ _ E Hf Hb Hu) as [_ Hfu].
+  pose proof (failed_up_run _ _ _ _ H2 Hfu) as Hfu'.
+  assert (I : Inv s).
+  { eapply Inv_run_from; [eapply Inv_step; [eapply Inv_run; exact H1|exact E]|exact H2]. }
+  destruct (inv_rok _ I (p_owner (pay s1 p))) as [_ [R2 _]].
+  destruct (R2 Hfu') as [X|[o' [X [Y Z]]]]; [congruence|].
+  rewrite He in X. injection X as <-. split; [exact Y|].
+  intros Ha. specialize (Z Ha).
+  assert (Hall : run init (tr1 ++ Finish p o :: tr2) = Some s).
+  { rewrite run_app, H1. cbn [run]. rewrite E. exact H2. }
+  destruct (sigint_run _ _ _ _ Hall Z) as [W|W]; [cbn in W; discriminate|exact W].
+Qed.
+
+Lemma C01_cause_is_original tr s r cs :
+  run init tr = Some s -> r_phase (run_ s r) = Ended (ARuntime cs) ->
+  cs <> [] /\ forall c, In c cs -> cause_ok s r c.
+Proof.
+  intros H He. pose proof (Inv_run _ _ H) as I.
+  destruct (inv_rok _ I r) as [_ [_ [R3 _]]]. destruct (R3 _ He) as [Hne Hin].
+  split; [exact Hne|]. intros c Hc. apply (inv_causes _ I). apply Hin. exact Hc.
+Qed.
+
+Lemma C01_only_interrupt_is_silent tr s r :
+  run init tr = Some s -> r_phase (run_ s r) = Ended AReturned ->
+  exists e, In e tr /\ stop_trigger r e.
+Proof.
+  intros H He. pose proof (Inv_run _ _ H) as I.
+  destruct (inv_rok _ I r) as [_ [_ [_ R4]]].
+  assert (Ht : r_trigger (run_ s r) = true) by (apply R4; auto).
+  destruct (trigger_run _ _ _ _ H Ht) as [X|X]; [cbn in X; discriminate|exact X].
+Qed.
+
+(* progress, in the form a model can carry: when nothing is owed any more, no runner is left closing *)
+Lemma owed_closing s r :
+  In r (rids s) -> (phase_closing (r_phase (run_ s r)) = true \/ r_phase (run_ s r) = Rejected) ->
+  quiescent s = false.
+Proof.
+  intros Hin Hc. unfold quiescent. destruct (owed s) eqn:E; [|reflexivity]. exfalso.
+  unfold owed in E. apply app_eq_nil in E. destruct E as [_ E].
+  assert (Hx : In (OAcceptEnd r) (flat_map (owed_run s) (rids s))).
+  { apply in_flat_map. exists r. split; [exact Hin|]. unfold owed_run. apply in_or_app. left.
+    destruct Hc as [Hc|Hc]; [destruct (r_phase (run_ s r)); try discriminate Hc; left; reflexivity|
+                             rewrite Hc; left; reflexivity]. }
+  rewrite E in Hx. destruct Hx.
+Qed.
+
+Lemma C01_failure_forces_end tr s r :
+  run init tr = Some s -> quiescent s = true -> r_failed_up (run_ s r) = true ->
+  exists a, r_phase (run_ s r) = Ended a /\ a <> AExclusive /\ (a = AReturned -> In Sigint tr).
+Proof.
+  intros H Hq Hf. pose proof (Inv_run _ _ H) as I.
+  destruct (inv_rok _ I r) as [_ [R2 _]]. destruct (R2 Hf) as [X|[a [X [Y Z]]]].
+  - exfalso. assert (Hin : In r (rids s)).
+    { destruct (in_dec Nat.eq_dec r (rids s)) as [i|n]; [exact i|].
+      rewrite (proj1 (inv_ids _ I) _ n) in X. discriminate. }
+    rewrite (owed_closing s r Hin) in Hq; [discriminate|]. left. rewrite X. reflexivity.
+  - exists a. repeat split; auto. intros Ha. destruct (sigint_run _ _ _ _ H (Z Ha)) as [W|W]; [discriminate|exact W].
+Qed.
+
+(* ====================================================================================== *)
+(* 9. C02                                                                                 *)
+(* ====================================================================================== *)
+Lemma forallb_settled s r :
+  settled s r = true -> forall p, In p (pids s) -> p_owner (pay s p) = r -> unsettled (pay s p) = false.
+Proof.
+  unfold settled. intros H p Hin Ho. rewrite forallb_forall in H. specialize (H p Hin).
+  rewrite Ho, Nat.eqb_refl in H. cbn in H. destruct (unsettled (pay s p)); [discriminate|reflexivity].
+Qed.
+
+(* when the blocking run call of runner r ends (other than by the exclusivity error), no coroutine
+   payload of r is still running or still cleaning up *)
+Lemma C02_settled_at_end tr s r o s' :
+  run init tr = Some s -> step s (AcceptEnd r o) = Some s' -> o <> AExclusive ->
+  forall p, p_owner (pay s p) = r -> coroutine (p_flav (pay s p)) = true -> background s p ->
+    p_st (pay s p) <> PRun /\ p_st (pay s p) <> PCanc.
+Proof.
+  intros H E Ho p Hp Hc Hb. pose proof (Inv_run _ _ H) as I.
+  destruct (inv_AcceptEnd _ _ _ _ E) as [Ha [Hs _]].
+  assert (Hcl : phase_closing (r_phase (run_ s r)) = true).
+  { unfold accept_end_ok in Ha. destruct (r_phase (run_ s r)); try discriminate Ha; [reflexivity|].
+    destruct o; try discriminate Ha. congruence. }
+  specialize (Hs Hcl).
+  destruct (in_dec Nat.eq_dec p (pids s)) as [i|n].
+  - pose proof (forallb_settled _ _ Hs p i Hp) as Hu. unfold unsettled in Hu. unfold background in Hb.
+    rewrite Hc, Hb in Hu. destruct (p_st (pay s p)); cbn in Hu; try discriminate; split; discriminate.
+  - rewrite (proj2 (inv_ids _ I) _ n). cbn. split; discriminate.
+Qed.
+
+(* the payload an event is an activity of *)
+Definition activity (e : event) : option nat :=
+  match e with
+  | Start p _ _ _ _ _ | Step p _ | Enter p | Finish p _ | Cancelled p | CleanStep p | CleanupDone p => Some p
+  | _ => None
+  end.
+
+Ltac dphase :=
+  match goal with
+  | [ |- context[r_phase (run_ ?a ?b)]] => destruct (r_phase (run_ a b)) eqn:?
+  | [H : context[r_phase (run_ ?a ?b)] |- _] => destruct (r_phase (run_ a b)) eqn:?
+  end.
+
+(* no coroutine payload takes a further step once the run call of its runner has ended *)
+Lemma no_activity_after_end s e s' p :
+  step s e = Some s' -> activity e = Some p -> coroutine (p_flav (pay s' p)) = true ->
+  phase_ended (r_phase (run_ s (p_owner (pay s' p)))) = false.
+Proof.
+  intros H Ha Hc. destruct e; cbn in Ha; try discriminate Ha; injection Ha as ->.
+  - destruct (inv_Start_pay _ _ _ _ _ _ _ _ H) as [_ [_ [_ [r [Hl [_ [_ [_ Hp]]]]]]]].
+    rewrite Hp, upd_same. simp_state. destruct (r_phase (run_ s r)); cbn in *; try discriminate; reflexivity.
+  - step_inv H. apply andb_prop in E0. destruct E0 as [_ E0]. rewrite Hc in E0. cbn in E0.
+    apply negb_true_iff in E0. exact E0.
+  - step_inv H; simp_state. rewrite Hc in E1. cbn in E1. apply orb_false_elim in E1. tauto.
+  - destruct (inv_Finish _ _ _ _ H) as [_ [_ [Hp [_ [He _]]]]]. rewrite Hp, upd_same in *. simp_state. auto.
+  - step_inv H; simp_state. rewrite upd_same in *. simp_state.
+    apply andb_prop in E0. destruct E0 as [E0 _]. apply andb_prop in E0. destruct E0 as [_ E0].
+    dphase; cbn in *; try discriminate; reflexivity.
+  - step_inv H; simp_state. dphase; cbn in *; try discriminate; reflexivity.
+  - step_inv H; simp_state. rewrite upd_same in *. simp_state.
+    dphase; cbn in *; try discriminate; reflexivity.
+Qed.
+
+Lemma owner_perm_run tr : forall s s' p,
+  run s tr = Some s' -> started (p_st (pay s p)) = true ->
+  p_owner (pay s' p) = p_owner (pay s p) /\ p_flav (pay s' p) = p_flav (pay s p).
+Proof.
+  induction tr as [|e tr IH]; intros s s' p H Hs; cbn [run] in H.
+  - injection H as <-. auto.
+  - destruct (step s e) eqn:E; [|discriminate].
+    destruct (started_perm _ _ _ _ E Hs) as [S1 [S2 [S3 _]]].
+    destruct (IH _ _ _ H S1) as [A B]. rewrite A, B. auto.
+Qed.
+
+Lemma C02_no_step_after_end tr1 r o tr2 e s1 s2 s3 p :
+  run init (tr1 ++ [AcceptEnd r o]) = Some s1 ->
+  run s1 tr2 = Some s2 -> step s2 e = Some s3 ->
+  activity e = Some p -> coroutine (p_flav (pay s3 p)) = true -> p_owner (pay s3 p) = r -> False.
+Proof.
+  intros H1 H2 H3 Ha Hc Ho.
+  assert (He : r_phase (run_ s1 r) = Ended o).
+  { rewrite run_app in H1. destruct (run init tr1) as [s0|]; [|discriminate]. cbn [run] in H1.
+    destruct (step s0 (AcceptEnd r o)) eqn:E; [|discriminate]. injection H1 as <-.
+    destruct (inv_AcceptEnd _ _ _ _ E) as [_ [_ [_ Hr]]]. rewrite Hr, upd_same. reflexivity. }
+  pose proof (ended_perm_run _ _ _ _ _ H2 He) as He2.
+  pose proof (no_activity_after_end _ _ _ _ H3 Ha Hc) as Hn. rewrite Ho, He2 in Hn. discriminate.
+Qed.
+
+(* cancellation before cleanup: the ghost counters of a payload in its terminal cleanup state *)
+Definition cleanup_ok (s : rt) : Prop :=
+  forall p, match p_st (pay s p) with
+            | PCanc => p_cancels (pay s p) = S (p_cleans (pay s p))
+            | _ => p_cancels (pay s p) = p_cleans (pay s p)
+            end.
+
+Lemma cleanup_ok_init : cleanup_ok init.
+Proof. intros p. reflexivity. Qed.
+
+Lemma cleanup_ok_step s e s' : cleanup_ok s -> step s e = Some s' -> cleanup_ok s'.
+Proof.
+  intros I H p. pose proof (I p) as Ip. clear I. step_inv H; simp_state;
+  try (upd_cases p); simp_state; try exact Ip; try reflexivity;
+  try (rw_all; simp_state; (lia || congruence || reflexivity)).
+  all: try (destruct (flush_st s r p) as [[Hq [_ Hf]]|Hf]; rewrite Hf; simp_state; rewrite ?Est;
+            try exact Ip; try congruence; fail).
+  all: try (destruct (r_phase (run_ s r)); exact Ip).
+Qed.
+
+(* threads never block the end: whatever thread payloads do, a closing runner whose coroutine
+   payloads are settled can end *)
+Lemma C02_threads_never_block tr s r c :
+  run init tr = Some s -> r_phase (run_ s r) = Closing c -> settled s r = true ->
+  exists o s', step s (AcceptEnd r o) = Some s'.
+Proof.
+  intros H Hp Hs. pose proof (Inv_run _ _ H) as I. destruct (inv_rok _ I r) as [R1 _].
+  assert (Hex : exists o, accept_end_ok (run_ s r) o = true).
+  { unfold accept_end_ok. rewrite Hp. destruct c.
+    - destruct (R1 Hp) as [Hf|Hb].
+      + destruct (r_failures (run_ s r)) as [|x l] eqn:Ef; [congruence|].
+        exists (ARuntime [x]). cbn. destruct x; cbn; rewrite ?Nat.eqb_refl; reflexivity.
+      + exists AOther. exact Hb.
+    - exists AReturned. reflexivity.
+    - exists AReturned. reflexivity. }
+  destruct Hex as [o Ho]. exists o. eexists. cbn [step step_core]. rewrite Ho, Hs.
+  rewrite orb_true_r. reflexivity.
+Qed.
